@@ -525,24 +525,77 @@ def run_qubit_stream(ck, n, variants):
     run_qubitham(ck, variants)
 
 
+def qh_same_terms_case(ck, same, exprs, impl, meta, asis):
+    """h == q and h != q for operands with IDENTICAL terms: the answer is the attribute-compatibility verdict alone.
+    It must agree with the rule the other site of the check (+=) applies, and with the model."""
+    import copy as _copy
+    import openfermion as of
+    from tangelo.toolboxes.operators import QubitOperator as TQ, QubitHamiltonian as QH
+    m1, u1, oc, m2, u2, o = same
+
+    def terms_into(x):
+        x.terms = {((0, "X"), (1, "Y")): 1.5, ((0, "Z"),): 2.0}
+        return x
+    h = terms_into(QH(mapping=m1, up_then_down=u1))
+    q = terms_into(QH(mapping=m2, up_then_down=u2) if oc == "QH" else (TQ() if oc == "TQ" else of.QubitOperator()))
+    sh, sq = canon_qterms(h.terms), canon_qterms(q.terms)
+    try:
+        r = (h == q) if o == "eq_same" else (h != q)
+        got = "Ok " + ("T" if r else "F")
+    except Exception as e:
+        r, got = None, "Err:" + type(e).__name__
+    if canon_qterms(h.terms) != sh or canon_qterms(q.terms) != sq:
+        ck.violation("C16/QubitHamiltonian/__eq__/operand-mutated", "comparison changed an operand", {"kind": "qubitham", "case": same})
+    # the compatibility rule as applied by += on fresh copies
+    try:
+        hh = _copy.deepcopy(h)
+        hh += _copy.deepcopy(q)
+        compatible = True
+    except RuntimeError:
+        compatible = False
+    except Exception:
+        compatible = None           # += itself fails for another reason: reported by the += cases
+    if r is None:
+        ck.violation("C16/QubitHamiltonian/__eq__/exception/%s" % got[4:],
+                     "QubitHamiltonian(mapping=%r, up_then_down=%r) %s %s(mapping=%r, up_then_down=%r) with identical terms raises %s" % (
+                         m1, u1, "==" if o == "eq_same" else "!=", oc, m2, u2, got[4:]), {"kind": "qubitham", "case": same})
+    elif compatible is not None and r != (compatible if o == "eq_same" else not compatible):
+        ck.violation("C16/QubitHamiltonian/__eq__/disagrees-with-iadd-compatibility",
+                     "identical terms, self (mapping=%r, up_then_down=%r), other %s (mapping=%r, up_then_down=%r): `%s` is %s although += %s "
+                     "the pair" % (m1, u1, oc, m2, u2, "==" if o == "eq_same" else "!=", r, "accepts" if compatible else "rejects"),
+                     {"kind": "qubitham", "case": same})
+    other = "None" if oc != "QH" else "(Some (qa %s %s))" % (
+        "None" if m2 is None else '(Some "%s")' % m2, "None" if u2 is None else "(Some %s)" % coq_bool(u2))
+    selfq = "(qa %s %s)" % ("None" if m1 is None else '(Some "%s")' % m1, "None" if u1 is None else "(Some %s)" % coq_bool(u1))
+    exprs.append("show_res_bool (qh_eq_outcome upper %s %s %s)" % (coq_bool(asis), selfq, other))
+    impl.append(got)
+    meta.append(same)
+    ck.case("qubit-hamiltonian", json.dumps(same), nontrivial=(m1 is not None and u1 is not None and m2 is not None and u2 is not None),
+            sample={"case": same, "impl": got}, tags=[o, oc, got])
+
+
 def run_qubitham(ck, variants):
     """QubitHamiltonian.__iadd__ / __eq__ (and + through deepcopy) with annotated / bare / plain operands."""
     import openfermion as of
     from tangelo.toolboxes.operators import QubitOperator as TQ, QubitHamiltonian as QH
     asis = variants["qubitham"]
-    ck.stream("qubit-hamiltonian", "all combinations of self (mapping in None/JW/jw/BK x up_then_down in None/False/True) "
+    ck.stream("qubit-hamiltonian", "all combinations of self (mapping in None/JW/jw/Jw/BK/bk/scBK/SCBK x up_then_down in None/False/True; "
+              "== and != also on operands with identical terms, where the answer must be the compatibility verdict that += applies) "
               "and other (annotated QubitHamiltonian / plain Tangelo QubitOperator / plain openfermion QubitOperator) for "
               "+=, + and ==: outcome vs qh_iadd_outcome / qh_eq_outcome, values and operand snapshots; "
               "non-trivial = self fully annotated")
     exprs, impl, meta = [], [], []
-    maps = [None, "JW", "jw", "BK"]
+    maps = [None, "JW", "jw", "Jw", "BK", "bk", "scBK", "SCBK"]
     utds = [None, False, True]
     others = [("QH", m, u) for m in maps for u in utds] + [("TQ", None, None), ("OQ", None, None)]
     for m1 in maps:
         for u1 in utds:
             for (oc, m2, u2) in others:
-                for o in ("iadd", "add", "eq"):
+                for o in ("iadd", "add", "eq", "eq_same", "ne_same"):
                     same = (m1, u1, oc, m2, u2, o)
+                    if o in ("eq_same", "ne_same"):
+                        qh_same_terms_case(ck, same, exprs, impl, meta, asis)
+                        continue
                     h = QH("X0 Y1", 1.5, mapping=m1, up_then_down=u1) + QH("Z0", 2.0, mapping=m1, up_then_down=u1)
                     if oc == "QH":
                         q = QH("Z0", 0.5, mapping=m2, up_then_down=u2) + QH("X1", -1.0, mapping=m2, up_then_down=u2)
@@ -606,6 +659,8 @@ def run_qubitham(ck, variants):
     for m, g, md in zip(model, impl, meta):
         # the model's "Ok T" for == means "attribute check passed, dictionaries are compared": they differ here
         mm = "Ok F" if (md[5] == "eq" and m == "Ok T") else m
+        if md[5] == "ne_same" and m in ("Ok T", "Ok F"):
+            mm = "Ok F" if m == "Ok T" else "Ok T"
         if mm != g:
             ck.violation("C16/correspondence/QubitHamiltonian/%s" % md[5],
                          "case %s: implementation %s, model (%s variant) %s" % (md, g, "as-written" if asis else "repaired", m),
